@@ -181,6 +181,66 @@ def _fresh_range(v, m=None, cls=None, depth=0):
     return False
 
 
+WIDE_DTYPES = {"uint64", "int64", "object", "object_", "float64", "longlong", "ulonglong"}
+
+
+def r04j(ctx):
+    m = ctx.model
+    ctx.rule("R04j", "cost accumulators are wide: a numpy array field that receives values derived from edit bounds (a stored value "
+                     "that mentions .bounds() / .upper_bound / .lower_bound / total_size, or another cost field) is allocated with a "
+                     "64-bit or object dtype.  Costs are sums of node sizes - the size of a string is its length - so a 16- or "
+                     "32-bit accumulator wraps for ordinary large documents, and the reported interval then leaves the previous one")
+    n = 0
+    for q in sorted(m.classes):
+        init = m.method(q, "__init__")
+        if init is None or init.cls != q:
+            continue
+        allocs = {}
+        for a in walk_no_nested(init.node):
+            if isinstance(a, (ast.Assign, ast.AnnAssign)) and a.value is not None and isinstance(a.value, ast.Call):
+                t = a.targets[0] if isinstance(a, ast.Assign) else a.target
+                nm = (call_name(a.value) or "")
+                if self_attr(t) and nm.split(".")[0] in ("np", "numpy") and any(k.arg == "dtype" for k in a.value.keywords):
+                    allocs[self_attr(t)] = (a, next(k.value for k in a.value.keywords if k.arg == "dtype"))
+        if not allocs:
+            continue
+        cost_fields = set()
+        stores = {}
+        for name, (kind, fn) in m.attrs[q].items():
+            if kind != "def":
+                continue
+            for s_ in walk_no_nested(fn.node):
+                if isinstance(s_, (ast.Assign, ast.AugAssign)):
+                    t = s_.targets[0] if isinstance(s_, ast.Assign) else s_.target
+                    base = t
+                    while isinstance(base, ast.Subscript):
+                        base = base.value
+                    if isinstance(t, ast.Subscript) and self_attr(base) in allocs:
+                        stores.setdefault(self_attr(base), []).append((fn, s_))
+        for _ in range(3):
+            for fld, lst in stores.items():
+                for fn, s_ in lst:
+                    txt = ast.unparse(s_.value)
+                    if any(k in txt for k in (".bounds()", ".upper_bound", ".lower_bound", "total_size")) or \
+                            any(f"self.{cf}[" in txt for cf in cost_fields if cf != fld):
+                        cost_fields.add(fld)
+        for fld in sorted(cost_fields):
+            a, dt = allocs[fld]
+            n += 1
+            dname = (dotted(dt) or ast.unparse(dt)).rsplit(".", 1)[-1].strip("'\"")
+            short = q.rsplit(".", 1)[-1]
+            if dname in WIDE_DTYPES:
+                ctx.proved("R04j", init.file, f"{short}.__init__", a, f"self.{fld} dtype", f"cost accumulator self.{fld} is {dname}")
+            else:
+                fn, s_ = stores[fld][0]
+                ctx.violation("R04j", init.file, f"{short}.__init__", a, f"self.{fld} dtype",
+                              f"self.{fld} accumulates edit costs (`{norm(s_, 70)}` in {fn.short}) but is allocated as {dname}: "
+                              f"a cumulative cost above the range of {dname} wraps around (three 30000-character strings removed "
+                              f"from a list exceed 65535), so the final interval lies outside the earlier ones and tighten_bounds() "
+                              f"reports the jump as progress")
+    ctx.floor("R04j", n, 1, "numpy cost accumulators")
+
+
 def r04d(ctx):
     m = ctx.model
     ctx.rule("R04d", "an interval is stored in a bounds cache (a self attribute that bounds() returns early) only "
@@ -451,6 +511,7 @@ def run(ctx):
     r04g(ctx)
     r04h(ctx)
     r04i(ctx)
+    r04j(ctx)
     from .c05 import r05c
     from .c17 import r17b
     r05c(ctx)     # a candidate / sub-edit taken from a one-shot iterator and then dropped makes the interval unsound
